@@ -9,6 +9,8 @@ pub mod c02;
 pub mod c03;
 pub mod c04;
 pub mod c07;
+pub mod c09;
+pub mod c13;
 pub mod c18;
 
 pub fn run(ctx: &Ctx) -> i32 {
@@ -18,6 +20,8 @@ pub fn run(ctx: &Ctx) -> i32 {
         "C03" => c03::run(ctx),
         "C04" => c04::run(ctx),
         "C07" => c07::run(ctx),
+        "C09" => c09::run(ctx),
+        "C13" => c13::run(ctx),
         "C18" => c18::run(ctx),
         other => {
             eprintln!("rt: property {other} is not served by this engine");
@@ -35,6 +39,8 @@ pub fn replay_case(prop: &str, sub: &str, case: Value) -> Result<(), String> {
         "C03" => c03::replay(sub, case),
         "C04" => c04::replay(sub, case),
         "C07" => c07::replay(sub, case),
+        "C09" => c09::replay(sub, case),
+        "C13" => c13::replay(sub, case),
         "C18" => c18::replay(sub, case),
         other => Err(format!("HARNESS: no replay for property {other}")),
     }
@@ -106,3 +112,30 @@ pub fn verdict_class(v: &crate::model::Verdict) -> &'static str {
         crate::model::Verdict::Unspecified => "verdict-unspecified",
     }
 }
+
+/// Entry point of crash-isolated worker processes (`rt --worker <mode>`).
+pub fn worker(mode: &str) {
+    match mode {
+        "c09" => c09::worker_main(),
+        "c13" => c13::worker_main(),
+        other => {
+            eprintln!("rt: unknown worker mode {other}");
+            std::process::exit(EXIT_INCONCLUSIVE);
+        }
+    }
+}
+
+pub fn leak_class(s: &str) -> &'static str {
+    use std::collections::HashMap;
+    use std::sync::Mutex;
+    static M: Mutex<Option<HashMap<String, &'static str>>> = Mutex::new(None);
+    let mut g = M.lock().unwrap();
+    let m = g.get_or_insert_with(HashMap::new);
+    if let Some(v) = m.get(s) {
+        return v;
+    }
+    let l: &'static str = Box::leak(s.to_string().into_boxed_str());
+    m.insert(s.to_string(), l);
+    l
+}
+
